@@ -16,6 +16,7 @@ CONSTANTS
   FixShort = FALSE
   FixNilReq = FALSE
   FixBadReq = FALSE
+  FixBadKey = FALSE
 VIEW view
 INVARIANTS TypeOK OwnIndexOnly CorrectModuloKnown
 CHECK_DEADLOCK FALSE
